@@ -211,6 +211,12 @@ def step_to_op(st, qubits):
             kw["invert_mask"] = tuple(st["mask"])
         if st.get("conf"):
             kw["confusion_map"] = {tuple(k): np.asarray(v) for k, v in st["conf"].items()}
+        if st.get("flip_via"):
+            # the same measurement reached through MeasurementGate.with_bits_flipped: start from the mask with those
+            # positions toggled and let the method toggle them back
+            full = list(st.get("mask", ())) + [False] * (len(qs) - len(st.get("mask", ())))
+            kw["invert_mask"] = tuple(bool(b) ^ (i in st["flip_via"]) for i, b in enumerate(full))
+            return cirq.measure(*qs, key=st["key"], **kw).gate.with_bits_flipped(*st["flip_via"]).on(*qs)
         return cirq.measure(*qs, key=st["key"], **kw)
     if t == "PM":
         ps = cirq.PauliString({q: {"X": cirq.X, "Y": cirq.Y, "Z": cirq.Z}[c] for q, c in zip(qs, st["paulis"])}, coefficient=st.get("coef", 1))
@@ -320,6 +326,8 @@ def gen_meas_program(rng, dims, nsteps=None, max_digits=8, pred=None, allow_conf
                 sub = tuple(sorted(int(x) for x in rng.choice(len(wires), size=int(rng.integers(1, min(2, len(wires)) + 1)), replace=False)))
                 d = L.dim_of([dims[wires[j]] for j in sub])
                 st["conf"] = {sub: _conf_matrix(rng, d)}
+            if allow_multi_cond and rng.random() < 0.2 and all(dims[w] == 2 for w in wires):
+                st["flip_via"] = tuple(sorted(int(x) for x in rng.choice(len(wires), size=int(rng.integers(1, len(wires) + 1)), replace=False)))
             measured[key] = tuple(dims[w] for w in wires)
             digits += len(wires)
             steps.append(st)
